@@ -149,6 +149,86 @@ static void hash_items(void)
     t_end("pbkdf2");
 }
 
+#include <ascon/storage.h>
+static uint8_t c09_store[64];
+static int c09_st_read(const ascon_storage_t *s, size_t off, unsigned char *d, size_t n) { (void)s; if (off + n > 64) return -1; memcpy(d, c09_store + off, n); return (int)n; }
+static int c09_st_write(const ascon_storage_t *s, size_t off, const unsigned char *d, size_t n, int erase) { (void)s; (void)erase; if (off + n > 64) return -1; if (d) memcpy(c09_store + off, d, n); return (int)n; }
+
+/* incremental interfaces of both flavours (every init / update / absorb / squeeze / finalize / reinit / copy / free entry point), against the reference */
+static void incremental_items(void)
+{
+    uint8_t o[200], e[200];
+    for (int A = 0; A < 2; A++) {
+        for (int l = 0; l <= 45; l += 5) {
+            int a = l / 3;
+            { union { ascon_hash_state_t h; ascon_hasha_state_t ha; } s, c;
+              if (A) { ascon_hasha_init(&s.ha); ascon_hasha_update(&s.ha, MSG, a); ascon_hasha_copy(&c.ha, &s.ha); ascon_hasha_update(&c.ha, MSG + a, l - a); ascon_hasha_finalize(&c.ha, o); ascon_hasha_free(&c.ha);
+                       ascon_hasha_reinit(&s.ha); ascon_hasha_update(&s.ha, MSG, l); ascon_hasha_finalize(&s.ha, o + 32); ascon_hasha_free(&s.ha); }
+              else   { ascon_hash_init(&s.h); ascon_hash_update(&s.h, MSG, a); ascon_hash_copy(&c.h, &s.h); ascon_hash_update(&c.h, MSG + a, l - a); ascon_hash_finalize(&c.h, o); ascon_hash_free(&c.h);
+                       ascon_hash_reinit(&s.h); ascon_hash_update(&s.h, MSG, l); ascon_hash_finalize(&s.h, o + 32); ascon_hash_free(&s.h); }
+              ref_hash(A, MSG, l, e); memcpy(e + 32, e, 32); expect(A ? "hasha-inc" : "hash-inc", o, e, 64, "digest", l, a); t_add(o, 64); }
+            { union { ascon_xof_state_t x; ascon_xofa_state_t xa; } s, c;
+              if (A) { ascon_xofa_init(&s.xa); ascon_xofa_absorb(&s.xa, MSG, a); ascon_xofa_copy(&c.xa, &s.xa); ascon_xofa_absorb(&c.xa, MSG + a, l - a); ascon_xofa_squeeze(&c.xa, o, 11); ascon_xofa_squeeze(&c.xa, o + 11, 30); ascon_xofa_free(&c.xa);
+                       ascon_xofa_reinit(&s.xa); ascon_xofa_absorb(&s.xa, MSG, l); ascon_xofa_pad(&s.xa); ascon_xofa_squeeze(&s.xa, o + 41, 41); ascon_xofa_reinit_fixed(&s.xa, 41); ascon_xofa_absorb(&s.xa, MSG, l); ascon_xofa_squeeze(&s.xa, o + 82, 41); ascon_xofa_free(&s.xa); }
+              else   { ascon_xof_init(&s.x); ascon_xof_absorb(&s.x, MSG, a); ascon_xof_copy(&c.x, &s.x); ascon_xof_absorb(&c.x, MSG + a, l - a); ascon_xof_squeeze(&c.x, o, 11); ascon_xof_squeeze(&c.x, o + 11, 30); ascon_xof_free(&c.x);
+                       ascon_xof_reinit(&s.x); ascon_xof_absorb(&s.x, MSG, l); ascon_xof_pad(&s.x); ascon_xof_squeeze(&s.x, o + 41, 41); ascon_xof_reinit_fixed(&s.x, 41); ascon_xof_absorb(&s.x, MSG, l); ascon_xof_squeeze(&s.x, o + 82, 41); ascon_xof_free(&s.x); }
+              ref_xof(A, MSG, l, e, 41); { uint8_t pm[64]; int pl = (l + 7) / 8 * 8; memset(pm, 0, sizeof pm); memcpy(pm, MSG, l); ref_xof(A, pm, pl, e + 41, 41); } ref_xof_fixed(A, 41, MSG, l, e + 82, 41); expect(A ? "xofa-inc" : "xof-inc", o, e, 123, "stream", l, a); t_add(o, 123); }
+            { union { ascon_hmac_state_t h; ascon_hmaca_state_t ha; } s; int kl = 3 + 2 * l;
+              if (A) { ascon_hmaca_init(&s.ha, MSG + 100, kl); ascon_hmaca_update(&s.ha, MSG, a); ascon_hmaca_update(&s.ha, MSG + a, l - a); ascon_hmaca_finalize(&s.ha, MSG + 100, kl, o);
+                       ascon_hmaca_reinit(&s.ha, MSG + 100, kl); ascon_hmaca_update(&s.ha, MSG, l); ascon_hmaca_finalize(&s.ha, MSG + 100, kl, o + 32); ascon_hmaca_free(&s.ha); }
+              else   { ascon_hmac_init(&s.h, MSG + 100, kl); ascon_hmac_update(&s.h, MSG, a); ascon_hmac_update(&s.h, MSG + a, l - a); ascon_hmac_finalize(&s.h, MSG + 100, kl, o);
+                       ascon_hmac_reinit(&s.h, MSG + 100, kl); ascon_hmac_update(&s.h, MSG, l); ascon_hmac_finalize(&s.h, MSG + 100, kl, o + 32); ascon_hmac_free(&s.h); }
+              ref_hmac(A, MSG + 100, kl, MSG, l, e); memcpy(e + 32, e, 32); expect(A ? "hmaca-inc" : "hmac-inc", o, e, 64, "tag", l, kl); t_add(o, 64); }
+            { union { ascon_kmac_state_t k; ascon_kmaca_state_t ka; } s; int kl = l % 23, cl = l % 7;
+              if (A) { ascon_kmaca_init(&s.ka, MSG + 100, kl, CU, cl, 40); ascon_kmaca_absorb(&s.ka, MSG, a); ascon_kmaca_absorb(&s.ka, MSG + a, l - a); ascon_kmaca_squeeze(&s.ka, o, 7); ascon_kmaca_squeeze(&s.ka, o + 7, 33);
+                       ascon_kmaca_reinit(&s.ka, MSG + 100, kl, CU, cl, 32); ascon_kmaca_absorb(&s.ka, MSG, l); ascon_kmaca_squeeze(&s.ka, o + 40, 32); ascon_kmaca_free(&s.ka); }
+              else   { ascon_kmac_init(&s.k, MSG + 100, kl, CU, cl, 40); ascon_kmac_absorb(&s.k, MSG, a); ascon_kmac_absorb(&s.k, MSG + a, l - a); ascon_kmac_squeeze(&s.k, o, 7); ascon_kmac_squeeze(&s.k, o + 7, 33);
+                       ascon_kmac_reinit(&s.k, MSG + 100, kl, CU, cl, 32); ascon_kmac_absorb(&s.k, MSG, l); ascon_kmac_squeeze(&s.k, o + 40, 32); ascon_kmac_free(&s.k); }
+              ref_kmac(A, MSG + 100, kl, MSG, l, CU, cl, e, 40); ref_kmac(A, MSG + 100, kl, MSG, l, CU, cl, e + 40, 32); expect(A ? "kmaca-inc" : "kmac-inc", o, e, 72, "tag", l, kl); t_add(o, 72); }
+            { union { ascon_kdf_state_t k; ascon_kdfa_state_t ka; } s; int kl = 1 + l % 29, cl = l % 5;
+              if (A) { ascon_kdfa_init(&s.ka, MSG + 100, kl, CU, cl, 50); ascon_kdfa_squeeze(&s.ka, o, 9); ascon_kdfa_squeeze(&s.ka, o + 9, 41); ascon_kdfa_reinit(&s.ka, MSG + 100, kl, CU, cl, 0); ascon_kdfa_squeeze(&s.ka, o + 50, 50); ascon_kdfa_free(&s.ka); }
+              else   { ascon_kdf_init(&s.k, MSG + 100, kl, CU, cl, 50); ascon_kdf_squeeze(&s.k, o, 9); ascon_kdf_squeeze(&s.k, o + 9, 41); ascon_kdf_reinit(&s.k, MSG + 100, kl, CU, cl, 0); ascon_kdf_squeeze(&s.k, o + 50, 50); ascon_kdf_free(&s.k); }
+              ref_kdf(A, MSG + 100, kl, CU, cl, e, 50);
+              { uint8_t e2[50]; /* declared length 0 = arbitrary-length output */ union { ascon_xof_state_t x; ascon_xofa_state_t xa; } r;
+                if (A) { ascon_xofa_init_custom(&r.xa, "KDF", CU, cl, 0); ascon_xofa_absorb(&r.xa, MSG + 100, kl); ascon_xofa_squeeze(&r.xa, e2, 50); ascon_xofa_free(&r.xa); }
+                else   { ascon_xof_init_custom(&r.x, "KDF", CU, cl, 0); ascon_xof_absorb(&r.x, MSG + 100, kl); ascon_xof_squeeze(&r.x, e2, 50); ascon_xof_free(&r.x); }
+                memcpy(e + 50, e2, 50); }
+              expect(A ? "kdfa-inc" : "kdf-inc", o, e, 100, "output", l, kl); t_add(o, 100); }
+            { union { ascon_hkdf_state_t h; ascon_hkdfa_state_t ha; } s; int kl = 1 + l, sl = l % 20, il = l % 11; int r1, r2;
+              if (A) { ascon_hkdfa_extract(&s.ha, MSG + 100, kl, MSG + 200, sl); r1 = ascon_hkdfa_expand(&s.ha, MSG + 300, il, o, 35); r2 = ascon_hkdfa_expand(&s.ha, MSG + 300, il, o + 35, 65); ascon_hkdfa_free(&s.ha); }
+              else   { ascon_hkdf_extract(&s.h, MSG + 100, kl, MSG + 200, sl); r1 = ascon_hkdf_expand(&s.h, MSG + 300, il, o, 35); r2 = ascon_hkdf_expand(&s.h, MSG + 300, il, o + 35, 65); ascon_hkdf_free(&s.h); }
+              ref_hkdf(A, MSG + 100, kl, MSG + 200, sl, MSG + 300, il, e, 100); if (r1 || r2) hx_fail(A ? "hkdfa-inc" : "hkdf-inc", "expand status %d %d", r1, r2);
+              expect(A ? "hkdfa-inc" : "hkdf-inc", o, e, 100, "output", l, kl); t_add(o, 100); }
+        }
+        t_end(A ? "incremental-a" : "incremental");
+    }
+    for (int l = 0; l <= 70; l += 7) { ascon_prf_state_t s; int a = l / 2;
+        ascon_prf_init(&s, K); ascon_prf_absorb(&s, MSG, a); ascon_prf_absorb(&s, MSG + a, l - a); ascon_prf_squeeze(&s, o, 5); ascon_prf_squeeze(&s, o + 5, 35);
+        ascon_prf_reinit(&s, K); ascon_prf_absorb(&s, MSG, l); ascon_prf_squeeze(&s, o + 40, 40);
+        ascon_prf_fixed_reinit(&s, K, 24); ascon_prf_absorb(&s, MSG, l); ascon_prf_squeeze(&s, o + 80, 24); ascon_prf_free(&s);
+        ascon_prf_fixed_init(&s, K, 24); ascon_prf_absorb(&s, MSG, l); ascon_prf_squeeze(&s, o + 104, 24); ascon_prf_free(&s);
+        ref_prf(K, 0, MSG, l, e, 40); memcpy(e + 40, e, 40); ref_prf(K, 24, MSG, l, e + 80, 24); memcpy(e + 104, e + 80, 24);
+        expect("prf-inc", o, e, 128, "output", l, a); t_add(o, 128); }
+    t_end("prf-incremental");
+    /* state copy, extract_and_add, the fixed-round macros */
+    for (int d = 0; d < 8; d++) {
+        ascon_state_t st, c2; uint8_t b[40], e2[40], x[40], ex[40]; hx_fill(b, 40, HX_P_DENSE, 700 + d); memcpy(e2, b, 40);
+        ascon_init(&st); ascon_overwrite_bytes(&st, b, 0, 40); ascon_permute12(&st); ascon_permute8(&st); ascon_permute6(&st);
+        ascon_extract_and_add_bytes(&st, MSG, x, 5, 30); ascon_release(&st); ascon_init(&c2); ascon_copy(&c2, &st); ascon_release(&c2); ascon_acquire(&st); ascon_free(&st);
+        ascon_acquire(&c2); ascon_permute(&c2, 11); ascon_extract_bytes(&c2, b, 0, 40); ascon_free(&c2);
+        ref_permute(e2, 0); ref_permute(e2, 4); ref_permute(e2, 6); for (int i = 0; i < 30; i++) ex[i] = e2[5 + i] ^ MSG[i]; ref_permute(e2, 11);
+        expect("permutation", b, e2, 40, "copied state", d, 0); expect("permutation", x, ex, 30, "extract_and_add", d, 0); t_add(b, 40); t_add(x, 30);
+    }
+    t_end("permutation-copy");
+    /* seed persistence: save, load into a second generator; the status values and the bytes written are part of the transcript */
+    { ascon_random_state_t rs; uint8_t o2[64]; int r;
+      sysrand_reset(91); r = ascon_random_init(&rs); t_int(r);
+      ascon_storage_t stg; memset(&stg, 0, sizeof stg); stg.page_size = 1; stg.size = 64; stg.read = c09_st_read; stg.write = c09_st_write;
+      r = ascon_random_save_seed(&rs, &stg); t_int(r); t_add(c09_store, 64);
+      r = ascon_random_load_seed(&rs, &stg); t_int(r); ascon_random_fetch(&rs, o2, 48); t_add(o2, 48); t_add(c09_store, 64); ascon_random_free(&rs); }
+    t_end("random-seed");
+}
+
 static void misc_items(void)
 {
     /* permutation API */
@@ -235,7 +315,7 @@ int main(int argc, char **argv)
     } else if (argc >= 2 && !strcmp(argv[1], "nlive")) {
         printf("NLIVE %d\n", NLK);
     } else {
-        aead_items(); hash_items(); misc_items();
+        aead_items(); hash_items(); incremental_items(); misc_items();
         hx_sample("transcript of %lld item groups over AEAD x4 entries, SIV, ISAP, hash/XOF/cXOF, PRF/MAC, HMAC, KMAC, KDF, HKDF, PBKDF2, permutation API, nonce/hex helpers, masked keys, PRNG", *hx_statp("items"));
     }
     hx_finish();
